@@ -466,8 +466,8 @@ def classify(msg):
 def run(ctx):
     ctx.build(["Props/C08.vo"])
     rng = ctx.sub_rng("corr")
-    n = ctx.scale(500, 8000)
-    maxlen = ctx.scale(10, 30)
+    n = ctx.scale(500, 2500)
+    maxlen = ctx.scale(10, 14)
     probe = clist(cstr(k) for k in PROBE)
 
     # ---- correspondence: model vs implementation
